@@ -53,6 +53,10 @@ def gen_case(rng, cfg, idx):
         # in-place histories (C04's generator, with explicit constant= on views): an in-place target keeps its own flag
         from mgverif.gen.inplace import gen_history
         b, base, n_inplace = gen_history(rng, nstmts=(3, 10), const_kw_prob=0.25, setshape_w=0.2)
+        from mgverif.gen.inplace import add_readout
+        L = add_readout(b, rng)
+        if L is not None:
+            b.prog.append({"k": "backward", "tgt": L, "seed": None})
         return {"prog": b.prog, "hist": True}
     for _ in range(20):
         c = gen_dag(rng, nodes=cfg["nodes"], seed_kinds=False)
@@ -229,6 +233,27 @@ def run_hist(case):
                 viol.append({"monitor": "flags", "mech": "inplace-changes-constant-flag",
                              "msg": f"{n}.constant changed {flags[n]} -> {v.constant} at statement {i} ({st['k']} {st.get('fn', st.get('op', ''))} on {st.get('tgt')})"})
                 return {"viol": viol, "counters": cnt, "sets": {"kinds": ["hist"]}, "sig": "hist:" + mgrun.struct_sig(prog)}
+    # O-meta on histories: index TENSORS (integer / boolean tensors used inside get-item / set-item indices) replaced by plain arrays
+    idx_leaves = {st["out"] for st in prog if st["k"] == "leaf" and st["out"].startswith("i") and st.get("kind") == "tensor"}
+    if idx_leaves and prog and prog[-1]["k"] == "backward" and not viol:
+        g1 = mgrun.snapshot_grads(it.env)
+        p2 = [dict(st, kind="array") if (st["k"] == "leaf" and st["out"] in idx_leaves) else st for st in prog]
+        REG.reset()
+        it2 = Interp("mg")
+        try:
+            it2.run(p2, catch=False)
+            g2 = mgrun.snapshot_grads(it2.env)
+            for n, g in g1.items():
+                if n in idx_leaves or n not in g2:
+                    continue
+                cnt["hist_meta_compared"] = cnt.get("hist_meta_compared", 0) + 1
+                h = g2[n]
+                if (g is None) != (h is None) or (g is not None and not np.array_equal(g, h, equal_nan=True)):
+                    viol.append({"monitor": "O-meta", "mech": "index-tensor-vs-array",
+                                 "msg": f"{n}.grad differs when index tensors {sorted(idx_leaves)} are passed as plain arrays: {None if g is None else g.ravel()[:3]} vs {None if h is None else h.ravel()[:3]}"})
+                    break
+        except Exception as e:
+            viol.append({"monitor": "O-meta", "mech": f"index-array-variant-raises:{type(e).__name__}", "msg": f"with index arrays instead of index tensors: {type(e).__name__}: {e}"})
     return {"viol": viol, "counters": cnt, "sets": {"kinds": ["hist"]}, "sig": "hist:" + mgrun.struct_sig(prog), "nontrivial": cnt["hist_inplace_stmts"] >= 1}
 
 
